@@ -106,7 +106,7 @@ static void nest_case(int kind, int leaf, size_t depth) {
   struct vh_buf x = {0};
   size_t* open_end = calloc(depth + 3, sizeof *open_end);
   gen_chain(kind, depth, leaf, &x, open_end);
-  size_t levels = depth + (leaf ? 1 : 0);
+  size_t levels = depth + ((leaf == 1 || leaf == 2) ? 1 : 0);
   /* independent expectation */
   struct rverdict z = ref_decode(x.p, x.n, LIM, RM_LAZY, false, NULL);
   bool want_accept = levels <= LIM;
@@ -118,7 +118,7 @@ static void nest_case(int kind, int leaf, size_t depth) {
   ta_reset_stats();
   run_job(&j);
   char what[160];
-  snprintf(what, sizeof what, "%s nesting, %zu open level(s)%s, limit %zu, %zu-byte input", chain_names[kind], levels, leaf == 1 ? " (chunked byte string innermost)" : leaf == 2 ? " (chunked text string innermost)" : "", LIM, x.n);
+  snprintf(what, sizeof what, "%s nesting, %zu open level(s)%s, limit %zu, %zu-byte input", chain_names[kind], levels, leaf == 1 ? " (chunked byte string innermost)" : leaf == 2 ? " (chunked text string innermost)" : leaf == 3 ? " (empty definite array innermost, which opens no level)" : leaf == 4 ? " (empty definite map innermost, which opens no level)" : "", LIM, x.n);
   if (j.overflowed) {
     vh_violation("native-stack-exhausted", "%s: the %zu-byte thread stack (64 KiB + 512 B per level of the limit) overflowed during %s", what, g_stack_len - 4096, j.phase);
     /* the tree (if any) is abandoned: forget its blocks */
@@ -177,17 +177,17 @@ static void nest_run(void) {
   if (O.thorough) { depths[nd++] = 64 * LIM; depths[nd++] = 2 * LIM + 1; }
   int unit = 0;
   for (int kind = 0; kind < CH_NKINDS; kind++)
-    for (int leaf = 0; leaf < 3; leaf++)
+    for (int leaf = 0; leaf < 5; leaf++)
       for (size_t di = 0; di < nd; di++, unit++) {
         if (unit % O.nshards != O.shard) continue;
         size_t depth = depths[di];
         /* with a chunked string innermost the containers supply depth-1 levels */
-        if (leaf && depth > 0) depth -= 1;
+        if ((leaf == 1 || leaf == 2) && depth > 0) depth -= 1;
         nest_case(kind, leaf, depth);
       }
   vh_count_dyn("max_stack_high_water_bytes", g_hwm);
   vh_count_dyn("max_stack_budget_bytes", g_stack_len - 4096);
-  vh_set_rule("each case is a nesting chain (one of 9 container patterns x scalar / chunked-bytes / chunked-text innermost) of a given depth, decoded, sized, serialized, described, copied and released on a thread with a fixed pre-painted stack; outcome and MEMERROR position are compared with the generator's bookkeeping and the reference decoder; every case non-trivial; distinct by (pattern, leaf, depth, L, optimisation level)");
+  vh_set_rule("each case is a nesting chain (one of 9 container patterns x scalar / chunked-bytes / chunked-text / empty definite array / empty definite map innermost) of a given depth, decoded, sized, serialized, described, copied and released on a thread with a fixed pre-painted stack; outcome and MEMERROR position are compared with the generator's bookkeeping and the reference decoder; every case non-trivial; distinct by (pattern, leaf, depth, L, optimisation level)");
   vh_set_exhaustive(false);
 }
 static void nest_exec(const uint8_t* d, size_t n) {
